@@ -302,7 +302,13 @@ def text_inventory(o, tree, stats):
                 body = strip_comments(ctext).split('internal:')[0]
                 got = re.findall(r'^\s*(static|virtual) (.*?) (\w+)\((.*?)\)( abstract)?;\s*$', body, re.M)
                 want = [('static' if m['static'] else 'virtual', v(m['attrs']['cppcli'].get('typename')), v(m['attrs']['cppcli'].get('name')), len(m['params'])) for m in meths]
-                gotn = [(a, b.strip(), c, len([x for x in re.split(r',(?![^<]*>)', p_) if x.strip()]), bool(ab)) for a, b, c, p_, ab in got]
+                def nparams(p_):
+                    depth, n_ = 0, (1 if p_.strip() else 0)
+                    for ch in p_:
+                        depth += ch in '<(['; depth -= ch in '>)]'
+                        n_ += (ch == ',' and depth == 0)
+                    return n_
+                gotn = [(a, b.strip(), c, nparams(p_), bool(ab)) for a, b, c, p_, ab in got]
                 stats['cppcli_members'] += len(want)
                 if all(b and c for a, b, c, n in want):
                     if [(a, b, c, n) for a, b, c, n, ab in gotn] != [(a, b.strip(), c, n) for a, b, c, n in want] or any((a == 'virtual') != ab for a, b, c, n, ab in gotn):
